@@ -140,6 +140,11 @@ class Report:
 # ----------------------------------------------------------------------------
 # token helpers
 
+def _stop(t: Tok) -> Tok:
+    t.stop = True      # type: ignore   (proof blocks anchored at the loop body start are placed in front of this token)
+    return t
+
+
 def compact(toks: List[Tok]) -> str:
     out = ""
     prev = None
@@ -730,13 +735,14 @@ def rule_R13(toks: List[Tok], ks: List[int], rep: Report, fn: str) -> List[Tok]:
         kw = Tok("ident", "while", first.pos, " ")
         cond = syn(f"{limit} && {res}.is_none()", first.pos, " ")
         ob = Tok("punct", "{", toks[i].pos, " ")
-        b1 = syn(bind + " if", toks[a].pos, " ")
+        b1 = syn(bind, toks[a].pos, " ")
+        b1b = _stop(syn("if", toks[a].pos, " "))
         tail = syn("{ " + f"{res} = Some({idx});" + " } else { " + f"{idx} += 1;" + " }", toks[close].pos, " ")
         cb = Tok("punct", "}", toks[close].pos, " ")
         fin = syn(f"{res} " + "}", toks[close].pos, " ")
         body = list(body)
         body[0] = Tok(body[0].kind, body[0].text, body[0].pos, " ")
-        toks = toks[:lo] + [head, kw, cond, ob, b1] + body + [tail, cb, fin] + toks[close + 1:]
+        toks = toks[:lo] + [head, kw, cond, ob, b1, b1b] + body + [tail, cb, fin] + toks[close + 1:]
         rep.rule("R13 slice .iter()[.enumerate()|.take(n)].position(closure) -> index loop")
     return toks
 
@@ -791,6 +797,155 @@ def rule_R14(toks: List[Tok], ks: List[int], rep: Report, fn: str) -> List[Tok]:
               [syn(f"{idx} += 1;", toks[close].pos, " "), Tok("punct", "}", toks[close].pos, " "), syn(f"{acc} " + "}", toks[close].pos, " ")]
         toks = toks[:lo] + new + toks[close + 1:]
         rep.rule("R14 Vec .into_iter().fold(init, closure) -> index loop")
+    return toks
+
+
+def _closure_parts(toks: List[Tok], open_paren: int):
+    """toks[open_paren] is `(` of a call whose single argument is `|PAT| BODY`; -> (pattern text, body tokens)"""
+    close = match_close(toks, open_paren)
+    a = open_paren + 1
+    if not is_p(toks[a], "|"):
+        return None
+    b = a + 1
+    while not is_p(toks[b], "|"):
+        b += 1
+    return compact(toks[a + 1:b]), toks[b + 1:close]
+
+
+def rule_loopify(toks: List[Tok], items: List[Tuple[str, int]], rep: Report, fn: str) -> List[Tok]:
+    """Iterator chains with a fixed meaning on slices / vectors, rewritten into the index loop that defines them:
+       R15  S.chunks_exact(N).map(|b| E).collect()            ->  push E for b = &S[i..i+N], i = 0, N, 2N, ... while i + N <= len
+       R16  S.iter().map(|n| E).sum::<T>()                     ->  accumulate E for n = &S[i]
+       R17  V.into_iter().rev().map(|x| E).collect()           ->  push E for x = V[len-1-i]
+       R18  S.iter().any(|&x| E)                               ->  scan until E holds
+    The anchor is the K-th occurrence of the last method (`collect`, `sum`, `any`) in the /repo text of the function."""
+    for meth, k in sorted(items, key=lambda x: (x[0], -x[1])):
+        sites = [i for i, t in enumerate(toks) if t.kind == "ident" and t.text == meth and i > 0 and is_p(toks[i - 1], ".")
+                 and (is_p(toks[i + 1], "(") or adj(toks, i + 1, "::"))]
+        if k > len(sites):
+            raise Undecided(f"lost anchor: .{meth}( #{k} in {fn}")
+        i = sites[k - 1]
+        lo = chain_start(toks, i - 2)
+        j = i + 1
+        ty = None
+        if adj(toks, j, "::"):
+            d = 0
+            j += 2
+            t0 = j
+            while True:
+                if is_p(toks[j], "<"):
+                    d += 1
+                elif is_p(toks[j], ">"):
+                    d -= 1
+                    if d == 0:
+                        break
+                j += 1
+            ty = compact(toks[t0 + 1:j])
+            j += 1
+        hi = match_close(toks, j)
+        # split the chain into receiver and calls
+        calls = []        # (name, open paren index)
+        p = lo
+        depth = 0
+        q = lo
+        while q <= hi:
+            t = toks[q]
+            if t.kind == "punct" and t.text in OPEN:
+                q = match_close(toks, q) + 1
+                continue
+            if is_p(t, ".") and toks[q + 1].kind == "ident" and q + 2 <= hi and (is_p(toks[q + 2], "(") or adj(toks, q + 2, "::")):
+                name = toks[q + 1].text
+                op = q + 2
+                if adj(toks, op, "::"):
+                    d = 0
+                    op += 2
+                    while True:
+                        if is_p(toks[op], "<"):
+                            d += 1
+                        elif is_p(toks[op], ">"):
+                            d -= 1
+                            if d == 0:
+                                break
+                        op += 1
+                    op += 1
+                calls.append((name, op, q))
+                q = match_close(toks, op) + 1
+                continue
+            q += 1
+        names = [c[0] for c in calls]
+        first = toks[lo]
+        tag = f"{meth}{k}"
+        idx = f"it_i__{tag}"
+
+        def recv_upto(call_index):
+            return toks[lo:calls[call_index][2]]
+        if names[-3:] == ["chunks_exact", "map", "collect"]:
+            ci = len(calls) - 3
+            recv = recv_upto(ci)
+            n_toks = toks[calls[ci][1] + 1:match_close(toks, calls[ci][1])]
+            cp = _closure_parts(toks, calls[ci + 1][1])
+            if cp is None or not re.fullmatch(r"\w+", cp[0]):
+                raise Undecided(f"R15: unsupported closure in {fn}")
+            x, body = cp
+            rt = render(recv).strip()
+            nt = render(n_toks).strip()
+            body = list(body)
+            body[0] = Tok(body[0].kind, body[0].text, body[0].pos, " ")
+            new = [syn("{ " + f"let it_s__{tag} = &{rt}; let mut it_o__{tag} = Vec::new(); let mut {idx}: usize = 0;", first.pos, first.ws),
+                   Tok("ident", "while", first.pos, " "), syn(f"{idx} + {nt} <= it_s__{tag}.len()", first.pos, " "),
+                   Tok("punct", "{", first.pos, " "), syn(f"let {x} = &it_s__{tag}[{idx}..{idx} + {nt}];", first.pos, " "), _stop(syn(f"it_o__{tag}.push(", first.pos, " "))] + body + \
+                  [syn(f"); {idx} += {nt};", toks[hi].pos, " "), Tok("punct", "}", toks[hi].pos, " "), syn(f"it_o__{tag} " + "}", toks[hi].pos, " ")]
+            rep.rule("R15 slice.chunks_exact(n).map(closure).collect() -> index loop")
+        elif names[-3:] == ["iter", "map", "sum"]:
+            ci = len(calls) - 3
+            recv = recv_upto(ci)
+            cp = _closure_parts(toks, calls[ci + 1][1])
+            if cp is None or not re.fullmatch(r"\w+", cp[0]) or ty is None:
+                raise Undecided(f"R16: unsupported closure / missing turbofish in {fn}")
+            x, body = cp
+            rt = render(recv).strip()
+            body = list(body)
+            body[0] = Tok(body[0].kind, body[0].text, body[0].pos, " ")
+            new = [syn("{ " + f"let it_s__{tag} = &{rt}; let mut it_a__{tag}: {ty} = 0; let mut {idx}: usize = 0;", first.pos, first.ws),
+                   Tok("ident", "while", first.pos, " "), syn(f"{idx} < it_s__{tag}.len()", first.pos, " "),
+                   Tok("punct", "{", first.pos, " "), syn(f"let {x} = &it_s__{tag}[{idx}];", first.pos, " "), _stop(syn(f"it_a__{tag} = it_a__{tag} + (", first.pos, " "))] + body + \
+                  [syn(f"); {idx} += 1;", toks[hi].pos, " "), Tok("punct", "}", toks[hi].pos, " "), syn(f"it_a__{tag} " + "}", toks[hi].pos, " ")]
+            rep.rule("R16 slice.iter().map(closure).sum::<T>() -> index loop")
+        elif names[-4:] == ["into_iter", "rev", "map", "collect"]:
+            ci = len(calls) - 4
+            recv = recv_upto(ci)
+            cp = _closure_parts(toks, calls[ci + 2][1])
+            if cp is None or not re.fullmatch(r"\w+", cp[0]):
+                raise Undecided(f"R17: unsupported closure in {fn}")
+            x, body = cp
+            rt = render(recv).strip()
+            body = list(body)
+            body[0] = Tok(body[0].kind, body[0].text, body[0].pos, " ")
+            new = [syn("{ " + f"let it_s__{tag} = {rt}; let mut it_o__{tag} = Vec::new(); let mut {idx}: usize = 0;", first.pos, first.ws),
+                   Tok("ident", "while", first.pos, " "), syn(f"{idx} < it_s__{tag}.len()", first.pos, " "),
+                   Tok("punct", "{", first.pos, " "), syn(f"let {x} = it_s__{tag}[it_s__{tag}.len() - 1 - {idx}];", first.pos, " "), _stop(syn(f"it_o__{tag}.push(", first.pos, " "))] + body + \
+                  [syn(f"); {idx} += 1;", toks[hi].pos, " "), Tok("punct", "}", toks[hi].pos, " "), syn(f"it_o__{tag} " + "}", toks[hi].pos, " ")]
+            rep.rule("R17 vec.into_iter().rev().map(closure).collect() -> index loop (elements are Copy: checked by rustc in the generated unit)")
+        elif names[-2:] == ["iter", "any"]:
+            ci = len(calls) - 2
+            recv = recv_upto(ci)
+            cp = _closure_parts(toks, calls[ci + 1][1])
+            if cp is None or not re.fullmatch(r"&?\w+", cp[0]):
+                raise Undecided(f"R18: unsupported closure in {fn}")
+            x, body = cp
+            rt = render(recv).strip()
+            bind = f"let {x[1:]} = it_s__{tag}[{idx}];" if x.startswith("&") else f"let {x} = &it_s__{tag}[{idx}];"
+            body = list(body)
+            body[0] = Tok(body[0].kind, body[0].text, body[0].pos, " ")
+            new = [syn("{ " + f"let it_s__{tag} = &{rt}; let mut it_f__{tag}: bool = false; let mut {idx}: usize = 0;", first.pos, first.ws),
+                   Tok("ident", "while", first.pos, " "), syn(f"{idx} < it_s__{tag}.len() && !it_f__{tag}", first.pos, " "),
+                   Tok("punct", "{", first.pos, " "), syn(f"{bind}", first.pos, " "), _stop(syn("if", first.pos, " "))] + body + \
+                  [syn("{ " + f"it_f__{tag} = true;" + " } else { " + f"{idx} += 1;" + " }", toks[hi].pos, " "), Tok("punct", "}", toks[hi].pos, " "),
+                   syn(f"it_f__{tag} " + "}", toks[hi].pos, " ")]
+            rep.rule("R18 slice.iter().any(closure) -> index loop")
+        else:
+            raise Undecided(f"loopify: unsupported chain `{'.'.join(names)}` at .{meth}( #{k} in {fn}")
+        toks = toks[:lo] + new + toks[hi + 1:]
     return toks
 
 
@@ -857,8 +1012,9 @@ def inject_loops(toks: List[Tok], fs: FnSpec, fnq: str) -> List[Tok]:
         if spec:
             ins_before.setdefault(bo, []).append(syn(spec, pos, "", tag=f"{fnq}.loop{k}.invariant"))
         bs = bo
-        while bs + 1 < len(toks) and toks[bs + 1].kind == "syn" and getattr(toks[bs + 1], "tag", None) is None:
-            bs += 1      # stay behind the bindings that rule R7 generated
+        while bs + 1 < len(toks) and toks[bs + 1].kind == "syn" and getattr(toks[bs + 1], "tag", None) is None \
+                and not getattr(toks[bs + 1], "stop", False):
+            bs += 1      # stay behind the bindings that the loop-generating rules produced
         for g in ent.get("body_start", []):
             ins_after.setdefault(bs, []).append(syn(g, toks[bo].pos, "\n", tag=f"{fnq}.loop{k}.body_start"))
         be = bc
@@ -1034,6 +1190,8 @@ class UnitBuilder:
                 body = rule_R13(body, [(k, remap[k]) for k in fs.scans], self.rep, fnq)
             if fs.folds:
                 body = rule_R14(body, fs.folds, self.rep, fnq)
+            if fs.loopify:
+                body = rule_loopify(body, fs.loopify, self.rep, fnq)
             for k in sorted(fs.foreach, reverse=True):
                 body = rule_R7(body, k, self.rep, fnq)
             body = rule_R1(body, self.rep)
